@@ -7,6 +7,7 @@
 package main
 
 import (
+	"runtime/pprof"
 	"encoding/json"
 	"flag"
 	"fmt"
@@ -175,6 +176,22 @@ func main() {
 	progress := fs.String("progress", "", "progress journal file (for the watchdog)")
 	known := fs.String("known", "", "regular expression of violation signatures that are open known findings")
 	fs.Parse(os.Args[2:])
+	if pf := os.Getenv("VERIF_CPUPROFILE"); pf != "" {
+		// development aid: CPU profile of a worker (os.Exit skips deferred calls,
+		// so the profile is stopped explicitly)
+		f, _ := os.Create(pf)
+		pprof.StartCPUProfile(f)
+		code := 0
+		switch cmd {
+		case "run":
+			code = cmdRun(*prop, *tier, *seed, *stride, *count, *budget, *progress, *known)
+		case "replay":
+			code = cmdReplay(*file)
+		}
+		pprof.StopCPUProfile()
+		f.Close()
+		os.Exit(code)
+	}
 	switch cmd {
 	case "run":
 		os.Exit(cmdRun(*prop, *tier, *seed, *stride, *count, *budget, *progress, *known))
@@ -211,7 +228,7 @@ func engineForSeed(prop string, s uint64) Engine {
 		// C11 also covers the simple server: every 8th run drives it with the
 		// boundary-dense / malformed-handle request generator of C17
 		return engines["simple"]
-	case prop == "C01" && s%4 == 3:
+	case (prop == "C01" || prop == "C07") && s%4 == 3:
 		// C01 under concurrency: several clients, crash points inside the group
 		// commits, linearizability of acknowledged + in-flight + post-crash history
 		return engines["conc"]
@@ -253,7 +270,7 @@ func cmdRun(prop, tier string, seed, stride uint64, count int, budget float64, p
 		if spec.Engine == "simple" && prop == "C11" {
 			sum.Counters["simple_server_runs"]++
 		}
-		if spec.Engine == "conc" && prop == "C01" {
+		if spec.Engine == "conc" && (prop == "C01" || prop == "C07") {
 			sum.Counters["concurrent_crash_runs"]++
 		}
 		if t, ok := spec.Knobs["total"]; ok {
